@@ -79,6 +79,23 @@ func runC13(r *vf.Run) {
 		copyPath := filepath.Join(dir, "copy.updog")
 		_ = ix.CopyFile(path, copyPath)
 		pool := c13Pool(rng, ds, 80)
+		// (round 8) value lists and conjunctions of 99..1000 comparisons in one flat operator, plain and below NOT: the
+		// number of leaves of ONE query, not its depth
+		for _, n := range []int{99, 100, 101, 150, 250, 1000} {
+			var ops []*oracle.Expr
+			for k := 0; k < n; k++ {
+				ops = append(ops, gen.Leaf(rng, ds, ds.ColNames()))
+			}
+			for k, e := range []*oracle.Expr{oracle.Or(ops...), oracle.Not(oracle.Or(ops...)), oracle.And(oracle.Or(ops[:n/2]...), oracle.Not(oracle.And(ops[n/2:]...)))} {
+				if validUTF8Expr(e) {
+					var gb []string
+					if k == 1 {
+						gb = gen.GroupBy(rng, ds, 1, 300)
+					}
+					pool = append(pool, c04Query{E: e, GB: gb, Want: oracle.Eval(ds.Rows, ds.Cols, e, gb)})
+				}
+			}
+		}
 		for oi, so := range serverOptionSets {
 			sid := did + "/" + so.name
 			if !r.Want(sid) {
@@ -298,6 +315,37 @@ func c13Batches(r *vf.Run, sid string, sp *serverProc, rng *rand.Rand, pool []c0
 			}
 			r.Sample("batch", map[string]any{"server": sid, "ids": ids, "queries": texts})
 		}
+	}
+	// (round 8) a streak of batches that are rejected (one invalid member each), then valid batches again: what a server
+	// holds per request (a slot, a worker, a buffer) comes back when the request is refused
+	sid2 := sid + "/after-rejected-streak"
+	if r.Want(sid2) && len(invalid) > 0 && len(valid) > 0 {
+		for i := 0; i < 150; i++ {
+			req := &pb.QueryRequest{Queries: []*pb.Query{{Expr: valid[i%len(valid)].proto(), GroupBy: valid[i%len(valid)].GB}, {Expr: invalid[i%len(invalid)].proto(), GroupBy: invalid[i%len(invalid)].GB}}}
+			ctx, cancel := context.WithTimeout(context.Background(), 30*time.Second)
+			_, err := cl.Query(ctx, req)
+			cancel()
+			if c := status.Code(err); c == codes.DeadlineExceeded || c == codes.Unavailable {
+				r.Violation(sid2, "transport-failure", map[string]any{"error": err.Error(), "rejected_batches_sent_before": i, "server": sid})
+				return
+			}
+		}
+		for i := 0; i < 3; i++ {
+			q := valid[(i*7)%len(valid)]
+			ctx, cancel := context.WithTimeout(context.Background(), 30*time.Second)
+			resp, err := cl.Query(ctx, &pb.QueryRequest{Queries: []*pb.Query{{Expr: q.proto(), GroupBy: q.GB}}})
+			cancel()
+			r.Eval(1)
+			if err != nil {
+				r.Violation(sid2, "rpc-error-for-valid-batch", map[string]any{"error": err.Error(), "after_rejected_batches": 150, "server": sid})
+				return
+			}
+			if d := compareBatch(resp, []c04Query{q}, nil); d != "" {
+				r.Violation(sid2, "batch-response", map[string]any{"difference": d, "after_rejected_batches": 150, "server": sid})
+				return
+			}
+		}
+		r.Count("valid_batches_after_a_streak_of_rejected_ones", 3)
 	}
 }
 
